@@ -359,7 +359,8 @@ func runC20(r *Run) {
 	for _, sc := range []struct {
 		name string
 		f    func(string) []string
-	}{{"pong with an opaque body", c20OpaquePong}, {"keepalive with MinGzipSize(4)", c20SmallGzipKeepalive}} {
+	}{{"pong with an opaque body", c20OpaquePong}, {"keepalive with MinGzipSize(4)", c20SmallGzipKeepalive},
+		{"quiet period after a pong, short keepalive timeout", c20QuietAfterPong}, {"largest response body", c20LargestBody}} {
 		t, w := strings.Join(sc.f("tcp"), " | "), strings.Join(sc.f("ws"), " | ")
 		r.st.Notes = append(r.st.Notes, sc.name+" tcp: "+t, sc.name+" ws:  "+w)
 		if t != w {
@@ -506,5 +507,62 @@ func c20SmallGzipKeepalive(trans string) []string {
 			out = append(out, s)
 		}
 	}
+	return out
+}
+
+// c20QuietAfterPong: KeepaliveTimeout short, Keepalive far away: a pong, then silence longer than the timeout, then a
+// request - the connection must survive on both transports.
+func c20QuietAfterPong(trans string) []string {
+	var mu sync.Mutex
+	var tr []string
+	trace := func(s string) { mu.Lock(); tr = append(tr, s); mu.Unlock() }
+	tc, x, done := c20Open(trans, trace, client.Keepalive(time.Hour), client.KeepaliveTimeout(300*time.Millisecond), client.DialTimeout(time.Second))
+	if tc == nil {
+		return []string{"setup failed"}
+	}
+	defer done()
+	out := []string{}
+	do := func(cmd uint8) {
+		ch := tc.doAsync(uint32(cmd), nil, time.Second)
+		if f := x.nextData(time.Second); f != nil {
+			x.sendData(respFrame(1, cmd, f.Rid, 0, []byte("ok")))
+		}
+		res, _ := awaitDo(ch, 2*time.Second)
+		out = append(out, "do:"+strings.Fields(resultStr(res))[0])
+	}
+	do(30)
+	x.pong(7, pbBytes(&control.Heartbeat{Timestamp: 1, HeartbeatId: func() *int32 { v := int32(7); return &v }()}))
+	time.Sleep(900 * time.Millisecond)
+	do(31)
+	out = append(out, fmt.Sprintf("reconnects=%d", tc.reconCount()))
+	return out
+}
+
+// c20LargestBody: a response whose body has the largest length the 24-bit field allows.
+func c20LargestBody(trans string) []string {
+	var mu sync.Mutex
+	trace := func(s string) { mu.Lock(); mu.Unlock() }
+	tc, x, done := c20Open(trans, trace, client.Keepalive(time.Hour), client.KeepaliveTimeout(2*time.Hour), client.DialTimeout(time.Second))
+	if tc == nil {
+		return []string{"setup failed"}
+	}
+	defer done()
+	out := []string{}
+	for _, n := range []int{16, 1<<24 - 1, 16} {
+		ch := tc.doAsync(30, nil, 5*time.Second)
+		f := x.nextData(2 * time.Second)
+		if f == nil {
+			out = append(out, "request not seen")
+			break
+		}
+		x.sendData(respFrame(1, 30, f.Rid, 0, make([]byte, n)))
+		res, _ := awaitDo(ch, 8*time.Second)
+		if res.pkt != nil {
+			out = append(out, fmt.Sprintf("do:RESP len=%d", len(res.pkt.Body)))
+		} else {
+			out = append(out, "do:"+strings.Fields(resultStr(res))[0])
+		}
+	}
+	out = append(out, fmt.Sprintf("reconnects=%d", tc.reconCount()))
 	return out
 }
